@@ -101,14 +101,14 @@ def run_reader_cleanliness(chk, F, fs, rule="R2.clean", groups=(None,), keys=Non
                        detail={"fn": b["path"], "cfg": "u%d" % w, "buffer": mir.fmt(bad_path.mem.get(BUF, BUF))[:200] if bad_path else None})
 
 
-def run_writer_layout(chk, F, fs, rule="W4.layout", names=("write_bits", "write_unary", "flush_be", "flush_le"), groups=(None,)):
+def run_writer_layout(chk, F, fs, rule="W4.layout", names=("write_bits", "write_unary", "flush"), groups=(None,)):
     """writer: every OR that builds the buffer / a delivered word combines disjoint ranges (the masked argument occupies exactly the
     n freed positions, so dirty high bits of the argument are ignored); flush pads with zeros"""
     for spec in rn.writer_specs():
         nm = spec.key.split(".")[-1]
         if nm not in names or spec.group not in groups:
             continue
-        e = "be" if (".be." in spec.key or spec.key.endswith("flush_be")) else "le"
+        e = "be" if ".be." in spec.key else "le"
         base_arg = spec.self_base
         buf = ("field", ("deref", base_arg), "buffer")
         space = ("field", ("deref", base_arg), "space_left_in_buffer")
